@@ -1,6 +1,7 @@
 package main
 
 import (
+	"go/token"
 	"fmt"
 	"strconv"
 	"go/types"
@@ -132,6 +133,9 @@ func checkC06(c *Check) {
 
 	// ---- R6 escrow payment id <-> lease id: writer and reader agree position by position
 	c.escrowIDCodec("R6")
+	// ---- R6 (cont.) "the record it names": two ids are equal only if every field is (the Equals methods the handlers,
+	// the inventory and the bid engine identify records with)
+	c.idEqualsComplete("R6")
 
 	// ---- R4 id provenance in handlers
 	c.idProvenance()
@@ -606,4 +610,163 @@ func successReturns2(fn *ssa.Function) []*ssa.Return {
 		}
 	}
 	return out
+}
+
+// idEqualsComplete: for each akash id type, Equals(other) is a conjunction that compares every field of the receiver
+// with the same field of the argument, directly or through the Equals of a projection (id.GroupID().Equals(
+// other.GroupID())). A field left out, or a comparison of the receiver with itself, makes distinct records compare
+// equal: a release / close / match then lands on another tenant's or another group's record.
+func (c *Check) idEqualsComplete(rule string) {
+	l := c.L
+	specs := [][2]string{{"x/deployment/types", "DeploymentID"}, {"x/deployment/types", "GroupID"}, {"x/market/types", "OrderID"}, {"x/market/types", "BidID"}, {"x/market/types", "LeaseID"}}
+	memo := map[*ssa.Function]map[string]bool{}
+	bad := map[*ssa.Function]string{}
+	var cover func(fn *ssa.Function, depth int) map[string]bool
+	side := func(fn *ssa.Function, v ssa.Value) string {
+		// "recv" / "other" / "" : which of the two ids v is read from
+		for d := 0; d < 8; d++ {
+			switch x := v.(type) {
+			case *ssa.UnOp:
+				v = x.X
+				continue
+			case *ssa.FieldAddr:
+				v = x.X
+				continue
+			case *ssa.Field:
+				v = x.X
+				continue
+			case *ssa.ChangeType:
+				v = x.X
+				continue
+			case *ssa.Convert:
+				v = x.X
+				continue
+			case *ssa.Call:
+				if len(x.Call.Args) == 1 && !x.Call.IsInvoke() {
+					v = x.Call.Args[0] // a projection id.X()
+					continue
+				}
+			case *ssa.Alloc:
+				if pp := paramOfAlloc(x); pp != nil {
+					v = pp
+					continue
+				}
+			case *ssa.Parameter:
+				switch paramIdx(x) {
+				case 0:
+					return "recv"
+				case 1:
+					return "other"
+				}
+			}
+			break
+		}
+		return ""
+	}
+	fieldOf := func(v ssa.Value) string {
+		switch x := v.(type) {
+		case *ssa.Field:
+			return fieldName(x.X.Type(), x.Field)
+		case *ssa.UnOp:
+			if fa, ok := x.X.(*ssa.FieldAddr); ok {
+				return fieldName(fa.X.Type(), fa.Field)
+			}
+		}
+		return ""
+	}
+	cover = func(fn *ssa.Function, depth int) map[string]bool {
+		if m, ok := memo[fn]; ok {
+			return m
+		}
+		m := map[string]bool{}
+		memo[fn] = m
+		if depth > 6 {
+			return m
+		}
+		eachInstr(fn, func(i ssa.Instruction) {
+			switch x := i.(type) {
+			case *ssa.BinOp:
+				if x.Op != token.EQL {
+					return
+				}
+				fx, fy := fieldOf(x.X), fieldOf(x.Y)
+				sx, sy := side(fn, x.X), side(fn, x.Y)
+				if fx == "" || fy == "" || sx == "" || sy == "" {
+					return
+				}
+				if sx == sy {
+					bad[fn] = "compares " + fx + " of the " + sx + " id with " + fy + " of the same id"
+					return
+				}
+				if fx == fy {
+					m[fx] = true
+				} else {
+					bad[fn] = "compares " + fx + " with " + fy
+				}
+			case *ssa.Call:
+				g := x.Call.StaticCallee()
+				if g == nil || g.Name() != "Equals" || len(x.Call.Args) != 2 {
+					return
+				}
+				sa, sb := side(fn, x.Call.Args[0]), side(fn, x.Call.Args[1])
+				if sa == "" || sb == "" {
+					return
+				}
+				if sa == sb {
+					bad[fn] = "hands both sides of " + fnName(g) + " the " + sa + " id"
+					return
+				}
+				for f := range cover(g, depth+1) {
+					m[f] = true
+				}
+			}
+		})
+		// the result is a conjunction: no leaf of the returned value is the constant true
+		for _, b := range fn.Blocks {
+			if r, ok := b.Instrs[len(b.Instrs)-1].(*ssa.Return); ok && len(r.Results) == 1 {
+				for _, lf := range retLeaves(r.Results[0], b, map[ssa.Value]bool{}) {
+					if isConstBool(lf.val, true) {
+						bad[fn] = "can answer true without comparing"
+					}
+				}
+			}
+		}
+		return m
+	}
+	for _, sp := range specs {
+		fn := l.Func(sp[0], sp[1], "Equals")
+		if fn == nil {
+			c.Info(rule, sp[1]+".Equals not found, field coverage not decided", token.NoPos, "")
+			continue
+		}
+		c.Analysed(fnName(fn))
+		cov := cover(fn, 0)
+		st, _ := fn.Params[0].Type().Underlying().(*types.Struct)
+		missing := ""
+		if st != nil {
+			for i := 0; i < st.NumFields(); i++ {
+				if !cov[st.Field(i).Name()] {
+					missing += st.Field(i).Name() + " "
+				}
+			}
+		}
+		why := ""
+		if missing != "" {
+			why = "ids that differ only in " + strings.TrimSpace(missing) + " compare equal"
+		}
+		if b := bad[fn]; b != "" {
+			why = strings.TrimSpace(why + "; " + b)
+		}
+		for g, b := range bad {
+			if g != fn && memo[g] != nil && b != "" && why == "" {
+				// a projection's Equals that this one relies on is itself broken
+				for _, call := range callsInOwn(fn) {
+					if call.Common().StaticCallee() == g {
+						why = fnName(g) + " " + b
+					}
+				}
+			}
+		}
+		c.Ob(rule, sp[1]+".Equals compares every field of the two ids", fn.Pos(), why == "", why)
+	}
 }
